@@ -529,6 +529,7 @@ func (c *Conn) closeWithError(err error) {
 
 	c.mu.Lock()
 	if c.closed {
+		verifConn("c_already", c, nil, 0, 0)
 		c.mu.Unlock()
 		return
 	}
@@ -544,13 +545,16 @@ func (c *Conn) closeWithError(err error) {
 		// It is safe to change c.calls to nil. Nobody should use it after c.closed is set to true.
 		c.calls = nil
 	}
+	verifConnErr("c_begin", c, nil, len(callsToClose), err)
 	c.mu.Unlock()
 
 	for _, req := range callsToClose {
 		// we need to send the error to all waiting queries.
 		select {
 		case req.resp <- callResp{err: err}:
+			verifConn("c_deliver", c, req, 0, 0)
 		case <-req.timeout:
+			verifConn("c_skip", c, req, 0, 0)
 		}
 		if req.streamObserverContext != nil {
 			req.streamObserverEndOnce.Do(func() {
@@ -562,7 +566,9 @@ func (c *Conn) closeWithError(err error) {
 	}
 
 	// if error was nil then unblock the quit channel
+	verifConn("c_cancel", c, nil, 0, 0)
 	c.cancel()
+	verifConn("c_sock", c, nil, 0, 0)
 	cerr := c.close()
 
 	if err != nil {
@@ -571,6 +577,7 @@ func (c *Conn) closeWithError(err error) {
 		// TODO(zariel): is it a good idea to do this?
 		c.errorHandler.HandleError(c, cerr, true)
 	}
+	verifConn("c_end", c, nil, 0, 0)
 }
 
 func (c *Conn) close() error {
@@ -590,6 +597,7 @@ func (c *Conn) serve(ctx context.Context) {
 		err = c.recv(ctx)
 	}
 
+	verifConnErr("s_exit", c, nil, 0, err)
 	c.closeWithError(err)
 }
 
@@ -673,8 +681,10 @@ func (c *Conn) recv(ctx context.Context) error {
 	head, err := readHeader(c.r, c.headerBuf[:])
 	headEndTime := time.Now()
 	if err != nil {
+		verifConnErr("r_hdr_err", c, nil, 0, err)
 		return err
 	}
+	verifConn("r_hdr", c, nil, head.stream, head.length)
 
 	if c.frameObserver != nil {
 		c.frameObserver.ObserveFrameHeader(context.Background(), ObservedFrameHeader{
@@ -719,13 +729,16 @@ func (c *Conn) recv(ctx context.Context) error {
 
 	c.mu.Lock()
 	if c.closed {
+		verifConn("r_closed", c, nil, head.stream, 0)
 		c.mu.Unlock()
 		return ErrConnectionClosed
 	}
 	call, ok := c.calls[head.stream]
 	delete(c.calls, head.stream)
+	verifConn("r_lookup", c, call, head.stream, 0)
 	c.mu.Unlock()
 	if call == nil || !ok {
+		verifConn("r_discard", c, nil, head.stream, 0)
 		c.logger.Printf("gocql: received response for stream which has no handler: header=%v\n", head)
 		return c.discardFrame(head)
 	} else if head.stream != call.streamID {
@@ -735,6 +748,7 @@ func (c *Conn) recv(ctx context.Context) error {
 	framer := newFramer(c.compressor, c.version)
 
 	err = framer.readFrame(c, &head)
+	verifConnErr("r_body", c, call, 0, err)
 	if err != nil {
 		// only net errors should cause the connection to be closed. Though
 		// cassandra returning corrupt frames will be returned here as well.
@@ -745,17 +759,22 @@ func (c *Conn) recv(ctx context.Context) error {
 
 	// we either, return a response to the caller, the caller timedout, or the
 	// connection has closed. Either way we should never block indefinatly here
+	verifConn("r_gate", c, call, 0, 0)
 	select {
 	case call.resp <- callResp{framer: framer, err: err}:
+		verifConn("r_arm_deliver", c, call, 0, 0)
 	case <-call.timeout:
+		verifConn("r_arm_timeout", c, call, 0, 0)
 		c.releaseStream(call)
 	case <-ctx.Done():
+		verifConn("r_arm_ctx", c, call, 0, 0)
 	}
 
 	return nil
 }
 
 func (c *Conn) releaseStream(call *callReq) {
+	verifConn("x_release", c, call, call.streamID, 0)
 	if call.timer != nil {
 		call.timer.Stop()
 	}
@@ -840,10 +859,12 @@ func (c *deadlineContextWriter) writeContext(ctx context.Context, p []byte) (int
 		return 0, ErrConnectionClosed
 	case c.semaphore <- struct{}{}:
 		// acquired
+		verifEvent("w_sem", c, "", len(p), nil)
 	}
 
 	defer func() {
 		// release
+		verifEvent("w_release", c, "", len(p), nil)
 		<-c.semaphore
 	}()
 
@@ -909,6 +930,7 @@ func (w *writeCoalescer) writeContext(ctx context.Context, p []byte) (int, error
 		return 0, io.EOF // TODO: better error here?
 	case w.writeCh <- wr:
 		// enqueued for writing
+		verifEvent("q_enq", w, "", len(p), nil)
 	}
 
 	if w.testEnqueuedHook != nil {
@@ -986,7 +1008,9 @@ func (w *writeCoalescer) flush(resultChans []chan<- writeResult, buffers net.Buf
 	// Copy buffers because WriteTo modifies buffers in-place.
 	buffers2 := make(net.Buffers, len(buffers))
 	copy(buffers2, buffers)
+	verifEvent("f_flush", w, "", len(buffers), nil)
 	n, err := buffers2.WriteTo(w.c)
+	verifEvent("f_ret", w, "", int(n), err)
 	// Writes of bytes before n succeeded, writes of bytes starting from n failed with err.
 	// Use n as remaining byte counter.
 	for i := range buffers {
@@ -1015,25 +1039,30 @@ func (c *Conn) addCall(call *callReq) error {
 	c.mu.Lock()
 	defer c.mu.Unlock()
 	if c.closed {
+		verifConn("x_addcall", c, call, 1, 0)
 		return ErrConnectionClosed
 	}
 	existingCall := c.calls[call.streamID]
 	if existingCall != nil {
+		verifConn("x_addcall", c, call, 2, 0)
 		return fmt.Errorf("attempting to use stream already in use: %d -> %d", call.streamID,
 			existingCall.streamID)
 	}
 	c.calls[call.streamID] = call
+	verifConn("x_addcall", c, call, 0, 0)
 	return nil
 }
 
 func (c *Conn) exec(ctx context.Context, req frameBuilder, tracer Tracer) (*framer, error) {
 	if ctxErr := ctx.Err(); ctxErr != nil {
+		verifConn("x_ctx", c, nil, 0, 0)
 		return nil, ctxErr
 	}
 
 	// TODO: move tracer onto conn
 	stream, ok := c.streams.GetStream()
 	if !ok {
+		verifConn("x_nostream", c, nil, 0, 0)
 		return nil, ErrNoStreams
 	}
 
@@ -1045,6 +1074,7 @@ func (c *Conn) exec(ctx context.Context, req frameBuilder, tracer Tracer) (*fram
 		streamID: stream,
 		resp:     make(chan callResp),
 	}
+	verifCtx(ctx, c, call)
 
 	if c.streamObserver != nil {
 		call.streamObserverContext = c.streamObserver.StreamContext(ctx)
@@ -1070,6 +1100,7 @@ func (c *Conn) exec(ctx context.Context, req frameBuilder, tracer Tracer) (*fram
 
 	err := req.buildFrame(framer, stream)
 	if err != nil {
+		verifConn("x_buildfail", c, call, 0, 0)
 		// closeWithError will block waiting for this stream to either receive a response
 		// or for us to timeout.
 		close(call.timeout)
@@ -1078,6 +1109,7 @@ func (c *Conn) exec(ctx context.Context, req frameBuilder, tracer Tracer) (*fram
 		c.mu.Lock()
 		if !c.closed {
 			delete(c.calls, call.streamID)
+			verifConn("x_del", c, call, 0, 0)
 		}
 		c.mu.Unlock()
 		// We need to release the stream after we remove the call from c.calls, otherwise the existingCall != nil
@@ -1086,8 +1118,11 @@ func (c *Conn) exec(ctx context.Context, req frameBuilder, tracer Tracer) (*fram
 		return nil, err
 	}
 
+	verifConn("x_wbegin", c, call, len(framer.buf), 0)
 	n, err := c.w.writeContext(ctx, framer.buf)
+	verifConnErr("x_wend", c, call, n, err)
 	if err != nil {
+		verifConn("x_wfail", c, call, n, 0)
 		// closeWithError will block waiting for this stream to either receive a response
 		// or for us to timeout, close the timeout chan here. Im not entirely sure
 		// but we should not get a response after an error on the write side.
@@ -1098,6 +1133,7 @@ func (c *Conn) exec(ctx context.Context, req frameBuilder, tracer Tracer) (*fram
 			c.mu.Lock()
 			if !c.closed {
 				delete(c.calls, call.streamID)
+				verifConn("x_del", c, call, 0, 0)
 			}
 			c.mu.Unlock()
 			// We need to release the stream after we remove the call from c.calls, otherwise the existingCall != nil
@@ -1137,8 +1173,10 @@ func (c *Conn) exec(ctx context.Context, req frameBuilder, tracer Tracer) (*fram
 		ctxDone = ctx.Done()
 	}
 
+	verifConn("x_wait", c, call, 0, 0)
 	select {
 	case resp := <-call.resp:
+		verifConnErr("x_arm_resp", c, call, 0, resp.err)
 		close(call.timeout)
 		if resp.err != nil {
 			if !c.Closed() {
@@ -1164,13 +1202,16 @@ func (c *Conn) exec(ctx context.Context, req frameBuilder, tracer Tracer) (*fram
 
 		return resp.framer, nil
 	case <-timeoutCh:
+		verifConn("x_arm_timer", c, call, 0, 0)
 		close(call.timeout)
 		c.handleTimeout()
 		return nil, ErrTimeoutNoResponse
 	case <-ctxDone:
+		verifConn("x_arm_ctx", c, call, 0, 0)
 		close(call.timeout)
 		return nil, ctx.Err()
 	case <-c.ctx.Done():
+		verifConn("x_arm_conn", c, call, 0, 0)
 		close(call.timeout)
 		return nil, ErrConnectionClosed
 	}
